@@ -47,7 +47,7 @@ BOUNDS = {
         'virtual_nodes': 'node listing: virtual first, and one of {last, second, first with reals reversed} in turn (thorough: all four); 1 virtual node attached to each single real node; attached to each pair of '
                          'real nodes; 2 virtual nodes (chained, or attached apart); 3 chained; each also combined with an order-0 '
                          'edge between two non-bonded real nodes when the base graph has such a pair',
-        'constructors': 'from_string for every variant, from_graph additionally for every third',
+        'constructors': 'from_string for every variant, from_graph additionally for every third', 'thinning': 'descriptions with 4 or more heavy atoms take every second variant, those with 4 or more fragments every third',
         'zero_family': 'each base-graph edge of each description set to order 0 (non-aromatic cuts)',
         'neg_family': 'one virtual node with an edge of order 1, 2, 3, 4 (alone, or next to an order-0 edge)'},
     'thorough': {
@@ -127,7 +127,12 @@ def cases(tier, seed):
     for mol, part, r, smi in descs:
         nf = max(part) + 1
         plan = g2.make_fragments(mol, part)
-        for virt, tag in variants(nf, plan['edges']):
+        vlist = variants(nf, plan['edges'])
+        if quick and nf >= 4:
+            vlist = vlist[(len(mol['a']) % 3)::3]
+        elif quick and len(mol['a']) >= 4:
+            vlist = vlist[(len(mol['b']) % 2)::2]
+        for virt, tag in vlist:
             prios = _priorities(nf, virt['n'], rng)
             if quick and len(prios) > 2:
                 # 'first' always (a virtual node in front of every real node), one of the others in turn
